@@ -11,4 +11,7 @@ def run(ctx):
     for c in Q.all_quantile():
         ex, obs = add_to_ctx(ctx, c, {})
         n += len(obs)
+    from ..pyvc import conformance
+
+    conformance.add_to_ctx(ctx, ["numpy.subtract"])
     return note + f" _lerp: {n} obligations (linear interpolation between the two order statistics, with and without an out buffer)."
